@@ -38,9 +38,43 @@ def run(ctx):
     floor(ctx, 'accumulations into flows', n_aug, 5)
     want = {'in': {'step.to[1]': {'+'}, 'step.to[0]': {'-'}},
             'out': {'step.frm[0]': {'+'}, 'step.frm[1]': {'-'}, 'step.trash': {'+'}}}
+    # a remove step may also be accounted per well as (before - after) of the destination, under `step.trash`
+    per_well_remove = {'step.to[0]': {'+'}, 'step.to[1]': {'-'}}
+    out_sig = dict(sigs['out'])
+    to_terms_guarded = True
+    for stmt, st, at in guards['out']:
+        if at & {'step.to[0]', 'step.to[1]'}:
+            def has_trash(c):
+                return c.op == 'truth' and getattr(strip_refs(c.left), 'pkey', None) == 'step.trash'
+            if not gate_with(st, has_trash):
+                to_terms_guarded = False
+    core_out = {k: v for k, v in out_sig.items() if k not in per_well_remove}
+    extra_out = {k: v for k, v in out_sig.items() if k in per_well_remove}
+    ok_out = {k: v for k, v in core_out.items() if k != 'step.trash'} == {k: v for k, v in want['out'].items() if k != 'step.trash'} \
+        and (core_out.get('step.trash') == {'+'} or extra_out == per_well_remove) \
+        and (not extra_out or (extra_out == per_well_remove and to_terms_guarded)) \
+        and core_out.get('step.trash', {'+'}) == {'+'}
+    ctx.ob('C15.R1', fi, fi.node.lineno, "flows['in'] has the specified polarity", sigs['in'] == want['in'],
+           fact=f"derived dependence {fmt(sigs['in'])}", why=f"specified: {fmt(want['in'])}", key='polarity of flows in')
+    ctx.ob('C15.R1', fi, fi.node.lineno, "flows['out'] has the specified polarity", ok_out,
+           fact=f"derived dependence {fmt(out_sig)}",
+           why=f"specified: {fmt(want['out'])} (a remove step may instead contribute to[0]: +, to[1]: - under step.trash)",
+           key='polarity of flows out')
+    # per-well typing: for a plate every term must be a per-well array, not a total broadcast to all wells
     for k in ('in', 'out'):
-        ctx.ob('C15.R1', fi, fi.node.lineno, f"flows['{k}'] has the specified polarity", sigs[k] == want[k],
-               fact=f"derived dependence {fmt(sigs[k])}", why=f"specified: {fmt(want[k])}", key=f"polarity of flows {k}")
+        for stmt, st, at in guards[k]:
+            def on_plate(c):
+                t = strip_refs(c.left)
+                return c.op == 'truth' and isinstance(t, ast.Call) and getattr(t.func, 'id', '') == 'isinstance' and \
+                    'Plate' in unparse(t.args[1].orig if hasattr(t.args[1], 'orig') else t.args[1])
+            if not gate_with(st, on_plate):
+                continue
+            v = ff.resolve(stmt.value, st)
+            per_well = any(isinstance(n, ast.Attribute) and n.attr == 'wells' for n in deep_walk(v))
+            ctx.ob('C15.R2', fi, stmt.lineno, f"flows['{k}'] of a plate is accumulated per well", per_well,
+                   fact=('term is computed from the wells array' if per_well else f"term {show(v, 60)} is a scalar total"),
+                   why='a total over all wells is added to every well: per-well flows of a plate are wrong',
+                   key=f"scalar total broadcast into plate flows {k}")
     # inflow is only credited on steps without trash (a pure withdrawal / removal never counts as inflow), and only for
     # the queried object
     for k in ('in', 'out'):
@@ -143,6 +177,14 @@ def t4(ctx, fi, ff):
             if not names:
                 continue
             n += 1
+            if may_array:
+                # excluded on this path by an isinstance(.., ndarray) test?
+                for cc in facts_at(b):
+                    t = strip_refs(cc.left)
+                    if cc.op == 'falsy' and isinstance(t, ast.Call) and getattr(t.func, 'id', '') == 'isinstance' and \
+                            'ndarray' in unparse(t.args[1].orig if hasattr(t.args[1], 'orig') else t.args[1]) and \
+                            same_value(t.args[0], arg):
+                        may_array = False
             ctx.ob('C15.R2', fi, s.lineno, f"round({unparse(raw, 30)}, ..) is applied to scalars only", not may_array,
                    fact=('the variable may hold a numpy array (per-well flows of a plate)' if may_array else 'scalar'),
                    why='the builtin round() raises TypeError on a numpy array: flows of a plate cannot be queried',
